@@ -1,7 +1,9 @@
 package clustersim
 
 import (
+	"crypto/md5"
 	"encoding/binary"
+	"encoding/hex"
 	"fmt"
 	"io"
 	"os"
@@ -253,7 +255,10 @@ func (r *run) execCorrupt(st *Step) {
 	}
 	data[st.Flip%len(data)] ^= 0x20
 	_ = os.WriteFile(p, data, 0o644)
-	rec.corrupt[mt.Name] = true
+	// two flips of the same byte give the original file back: corrupt means "differs from what the manifest
+	// checksummed", decided from the bytes, not from the number of corrupt steps
+	sum := md5.Sum(data)
+	rec.corrupt[mt.Name] = hex.EncodeToString(sum[:]) != mt.MD5
 	r.out.Fault("backup-file-byte-flipped")
 }
 
